@@ -181,6 +181,16 @@ func checkC03(c *hx.Checker) {
 				}
 			}
 			addCase(op, &ref.T{DT: dt, Shape: []int{len(pa)}, V: pa}, &ref.T{DT: dt, Shape: []int{len(pb)}, V: pb}, "op", true, "special-values")
+			if op == "Div" && dt.IsInt() {
+				// integer division by zero / MIN by -1: undefined in ONNX, so the outcome is free - but it is either an
+				// error or tensors, never a panic and never "success" with a nil result (op and model route)
+				num := &ref.T{DT: dt, Shape: []int{3}, V: []uint64{ref.EncI(dt, 7), ref.EncI(dt, 0), alpha[len(alpha)-1]}}
+				den := &ref.T{DT: dt, Shape: []int{3}, V: []uint64{ref.EncI(dt, 0), ref.EncI(dt, 0), ref.EncI(dt, 0)}}
+				for _, rt := range []string{"op", "model"} {
+					oc := &hx.OpCase{Op: op, Inputs: tjs(num, den), NOut: 1, Route: rt}
+					jobs = append(jobs, opJob{id: fmt.Sprintf("Div/%s/%s/integer-division-by-zero", dt, rt), tags: []string{"op=Div", "dtype=" + dt.String(), "route=" + rt, "domain=nopanic", "int-div-by-zero"}, nt: true, oc: oc, dom: hx.DNoPanic, cmp: hx.Bits})
+				}
+			}
 			// x OP x with one and the same tensor object (a node whose two inputs carry the same name);
 			// float x/x contains 0/0, the recorded Div-by-zero finding, and integer x/x divides by zero: skipped
 			if op != "Div" {
